@@ -99,7 +99,7 @@ def run(tier, seed):
             B.run_case(pol, a, "record", exp, f"key-history: {what}")
     B.close()
     chk.notes.append({"oracle_queries": B.O.counts})
-    fw.env_invariance(chk, "auth")          # the same seeded cases under -O / -OO, warnings-as-errors, other TZ / locale, a private CA bundle
+    fw.env_invariance(chk, "auth", "reg")          # the same seeded cases under -O / -OO, warnings-as-errors, other TZ / locale, a private CA bundle
     return fw.finish(chk, ob, br, TRUSTED,
                      ["theorems hold for arbitrary oracles; what the oracles answer on explored inputs is computed by independent reference code",
                       "AuthAccepted (coq/Spec/AuthSpec.v) is the formal reading of the property's conjunct list"],
